@@ -34,7 +34,7 @@ def env_base():
 
 
 # harness modules that live behind another module's cargo feature
-MODULE_FEATURE = {"rxl": "rx", "c03b": "c03"}
+MODULE_FEATURE = {"rxl": "rx", "c03b": "c03", "smt": "c17"}
 
 
 def feature_list(prop, harnesses, extra=(), tier="quick"):
@@ -103,6 +103,19 @@ def _limit(mem_gb):
     return f
 
 
+def smt_replay_json(job):
+    return job.log + ".replays.json"
+
+
+def job_cmd(job):
+    """Kani harness, or (kind="smt") the MIR->SMT encoder, which prints a Kani-shaped log."""
+    if job.h.get("kind") == "smt":
+        return [sys.executable, os.path.join(ROOT, "vp", "mirsmt.py"), job.h["smt"],
+                "--replay-json", smt_replay_json(job),
+                "--workdir", os.path.join(BUILD, "mirsmt-" + job.prop)]
+    return kani_cmd(job)
+
+
 def kani_cmd(job, extra=()):
     cmd = ["cargo", "kani", "-Z", "stubbing", "--features", job.feats,
            "--target-dir", target_dir(job.prop),
@@ -160,7 +173,7 @@ def run_jobs(jobs, progress=True):
                     os.makedirs(os.path.dirname(j.log), exist_ok=True)
                     f = open(j.log, "w")
                     j.t0 = time.time()
-                    j.proc = subprocess.Popen(kani_cmd(j), cwd=HARNESS, env=env_base(), stdout=f,
+                    j.proc = subprocess.Popen(job_cmd(j), cwd=HARNESS, env=env_base(), stdout=f,
                                               stderr=subprocess.STDOUT, preexec_fn=_limit(j.mem_gb))
                     f.close()
                     pending.remove(j)
@@ -389,6 +402,12 @@ PLAYBACK_RE = re.compile(r"Concrete playback unit test for `([^`]+)`:\n```\n(.*?
 
 def gen_replays(job):
     """Re-run the harness with concrete playback; returns list of (check_desc, test_name, code)."""
+    if job.h.get("kind") == "smt":
+        # the encoder already turned each satisfying assignment into a native test
+        try:
+            return [(r["desc"], r["name"], r["code"]) for r in json.load(open(smt_replay_json(job)))]
+        except (OSError, ValueError):
+            return []
     log = job.log + ".playback"
     cmd = kani_cmd(job, ["-Z", "concrete-playback", "--concrete-playback=print"])
     with open(log, "w") as f:
